@@ -33,13 +33,29 @@ mod kani_c08 {
             self.acc as u16
         }
     }
-    fn pseudo_v4(r: &mut Ref, src: &Ipv4Address, dst: &Ipv4Address, proto: u8, len: u16) {
-        r.bytes(&src.octets()); r.bytes(&dst.octets()); r.byte(0); r.byte(proto); r.byte((len >> 8) as u8); r.byte(len as u8);
+    /// one's-complement addition of two 16-bit sums (RFC 1071 (2): the sum may be computed in pieces and the pieces added)
+    fn oc_add(a: u16, b: u16) -> u16 { let s = a as u32 + b as u32; ((s & 0xffff) + (s >> 16)) as u16 }
+    fn ref_of(d: &[u8]) -> u16 { let mut r = Ref::new(); r.bytes(d); r.finish() }
+    /// reference sum of pseudo-header ++ segment, computed piecewise (each piece has even length except the last);
+    /// "piecewise == flat" is obligation c08_ref_piecewise_is_flat
+    fn sum_v4(src: &Ipv4Address, dst: &Ipv4Address, proto: u8, len: u16, seg: &[u8]) -> u16 {
+        let pl = [0u8, proto, (len >> 8) as u8, len as u8];
+        oc_add(oc_add(ref_of(&src.octets()), ref_of(&dst.octets())), oc_add(ref_of(&pl), ref_of(seg)))
     }
-    fn pseudo_v6(r: &mut Ref, src: &Ipv6Address, dst: &Ipv6Address, proto: u8, len: u32) {
-        r.bytes(&src.octets()); r.bytes(&dst.octets());
-        r.byte((len >> 24) as u8); r.byte((len >> 16) as u8); r.byte((len >> 8) as u8); r.byte(len as u8);
-        r.byte(0); r.byte(0); r.byte(0); r.byte(proto);
+    fn sum_v6(src: &Ipv6Address, dst: &Ipv6Address, proto: u8, len: u32, seg: &[u8]) -> u16 {
+        let pl = [(len >> 24) as u8, (len >> 16) as u8, (len >> 8) as u8, len as u8, 0, 0, 0, proto];
+        oc_add(oc_add(ref_of(&src.octets()), ref_of(&dst.octets())), oc_add(ref_of(&pl), ref_of(seg)))
+    }
+
+    /// RFC 1071 (2): the sum over A ++ B equals the one's-complement addition of the sums of A and B when |A| is even
+    #[kani::proof] #[kani::unwind(16)]
+    fn c08_ref_piecewise_is_flat() {
+        let buf: [u8; 12] = kani::any();
+        let a: usize = kani::any();
+        let n: usize = kani::any();
+        kani::assume(a <= n && n <= 12 && a % 2 == 0); // tag: range
+        kani::cover!(a == 6 && n == 11, "odd tail reachable");
+        assert!(ref_of(&buf[..n]) == oc_add(ref_of(&buf[..a]), ref_of(&buf[a..n])), "C08.oracle: the reference sum may be computed in even-length pieces");
     }
 
     /// checksum::data == RFC 1071 for every content, every length 0..=L and every start offset (alignment) 0..4
@@ -100,9 +116,9 @@ mod kani_c08 {
         let mut buf: [u8; 8 + P] = kani::any();
         let mut p = UdpPacket::new_unchecked(&mut buf[..8 + n]);
         repr.emit(&mut p, &IpAddress::Ipv4(src), &IpAddress::Ipv4(dst), n, |b| b.copy_from_slice(&pay[..n]), &ChecksumCapabilities::default());
-        let mut r = Ref::new(); pseudo_v4(&mut r, &src, &dst, 17, (8 + n) as u16); r.bytes(&buf[..8 + n]);
+        let total = sum_v4(&src, &dst, 17, (8 + n) as u16, &buf[..8 + n]);
         kani::cover!(n == P, "maximal payload reachable");
-        assert!(r.finish() == 0xffff, "C08.emit.udp4: emitted UDP/IPv4 datagram verifies");
+        assert!(total == 0xffff, "C08.emit.udp4: emitted UDP/IPv4 datagram verifies");
         assert!(buf[6] != 0 || buf[7] != 0, "C08.emit.udp: a computed checksum is never transmitted as zero");
     }
 
@@ -116,9 +132,9 @@ mod kani_c08 {
         let mut buf: [u8; 8 + P] = kani::any();
         let mut p = UdpPacket::new_unchecked(&mut buf[..8 + n]);
         repr.emit(&mut p, &IpAddress::Ipv6(src), &IpAddress::Ipv6(dst), n, |b| b.copy_from_slice(&pay[..n]), &ChecksumCapabilities::default());
-        let mut r = Ref::new(); pseudo_v6(&mut r, &src, &dst, 17, (8 + n) as u32); r.bytes(&buf[..8 + n]);
+        let total = sum_v6(&src, &dst, 17, (8 + n) as u32, &buf[..8 + n]);
         kani::cover!(n == P, "maximal payload reachable");
-        assert!(r.finish() == 0xffff, "C08.emit.udp6: emitted UDP/IPv6 datagram verifies");
+        assert!(total == 0xffff, "C08.emit.udp6: emitted UDP/IPv6 datagram verifies");
         assert!(buf[6] != 0 || buf[7] != 0, "C08.emit.udp: a computed checksum is never transmitted as zero");
     }
 
@@ -143,9 +159,9 @@ mod kani_c08 {
         let len = repr.buffer_len();
         let mut p = TcpPacket::new_unchecked(&mut buf[..len]);
         repr.emit(&mut p, &IpAddress::Ipv4(src), &IpAddress::Ipv4(dst), &ChecksumCapabilities::default());
-        let mut r = Ref::new(); pseudo_v4(&mut r, &src, &dst, 6, len as u16); r.bytes(&buf[..len]);
+        let total = sum_v4(&src, &dst, 6, len as u16, &buf[..len]);
         kani::cover!(len == 24 + P, "maximal segment reachable");
-        assert!(r.finish() == 0xffff, "C08.emit.tcp4: emitted TCP/IPv4 segment verifies");
+        assert!(total == 0xffff, "C08.emit.tcp4: emitted TCP/IPv4 segment verifies");
     }
 
     #[kani::proof] #[kani::stub(crate::wire::ip::checksum::data, data_contract)] #[kani::unwind(48)]
@@ -159,9 +175,9 @@ mod kani_c08 {
         let len = repr.buffer_len();
         let mut p = TcpPacket::new_unchecked(&mut buf[..len]);
         repr.emit(&mut p, &IpAddress::Ipv6(src), &IpAddress::Ipv6(dst), &ChecksumCapabilities::default());
-        let mut r = Ref::new(); pseudo_v6(&mut r, &src, &dst, 6, len as u32); r.bytes(&buf[..len]);
+        let total = sum_v6(&src, &dst, 6, len as u32, &buf[..len]);
         kani::cover!(len == 24 + P, "maximal segment reachable");
-        assert!(r.finish() == 0xffff, "C08.emit.tcp6: emitted TCP/IPv6 segment verifies");
+        assert!(total == 0xffff, "C08.emit.tcp6: emitted TCP/IPv6 segment verifies");
     }
 
     #[kani::proof] #[kani::stub(crate::wire::ip::checksum::data, data_contract)] #[kani::unwind(24)]
@@ -192,9 +208,9 @@ mod kani_c08 {
         let len = repr.buffer_len();
         let mut p = Icmpv6Packet::new_unchecked(&mut buf[..len]);
         repr.emit(&src, &dst, &mut p, &ChecksumCapabilities::default());
-        let mut r = Ref::new(); pseudo_v6(&mut r, &src, &dst, 58, len as u32); r.bytes(&buf[..len]);
+        let total = sum_v6(&src, &dst, 58, len as u32, &buf[..len]);
         kani::cover!(n == P, "maximal payload reachable");
-        assert!(r.finish() == 0xffff, "C08.emit.icmpv6: emitted ICMPv6 message verifies");
+        assert!(total == 0xffff, "C08.emit.icmpv6: emitted ICMPv6 message verifies");
     }
 
     // ---------------------------------------------------------------- enforcement: parse Ok => checksum verifies (independent verifier)
@@ -223,10 +239,8 @@ mod kani_c08 {
             if UdpRepr::parse(&p, &src, &dst, &ChecksumCapabilities::default()).is_ok() {
                 kani::cover!(true, "a datagram can parse");
                 let len = ((buf[4] as usize) << 8) | buf[5] as usize;
-                let mut r = Ref::new();
-                if v6 { pseudo_v6(&mut r, &s6, &d6, 17, len as u32) } else { pseudo_v4(&mut r, &s4, &d4, 17, len as u16) }
-                r.bytes(&buf[..len]);
-                let ok = r.finish() == 0xffff;
+                let total = if v6 { sum_v6(&s6, &d6, 17, len as u32, &buf[..len]) } else { sum_v4(&s4, &d4, 17, len as u16, &buf[..len]) };
+                let ok = total == 0xffff;
                 if v6 { assert!(ok && !zero, "C08.parse.udp6: over IPv6 a datagram parses only with a valid, non-zero checksum"); }
                 else { assert!(ok || zero, "C08.parse.udp4: over IPv4 a datagram parses only with a valid checksum or the 'no checksum' value zero"); }
             }
@@ -246,8 +260,8 @@ mod kani_c08 {
         if let Ok(p) = TcpPacket::new_checked(&buf[..n]) {
             if TcpRepr::parse(&p, &IpAddress::Ipv4(s4), &IpAddress::Ipv4(d4), &ChecksumCapabilities::default()).is_ok() {
                 kani::cover!(true, "a segment can parse");
-                let mut r = Ref::new(); pseudo_v4(&mut r, &s4, &d4, 6, n as u16); r.bytes(&buf[..n]);
-                assert!(r.finish() == 0xffff, "C08.parse.tcp: a segment that parses has a valid checksum");
+                let total = sum_v4(&s4, &d4, 6, n as u16, &buf[..n]);
+                assert!(total == 0xffff, "C08.parse.tcp: a segment that parses has a valid checksum");
             }
         }
     }
@@ -277,8 +291,8 @@ mod kani_c08 {
         if let Ok(p) = Icmpv6Packet::new_checked(&buf[..n]) {
             if Icmpv6Repr::parse(&s6, &d6, &p, &ChecksumCapabilities::default()).is_ok() {
                 kani::cover!(true, "a message can parse");
-                let mut r = Ref::new(); pseudo_v6(&mut r, &s6, &d6, 58, n as u32); r.bytes(&buf[..n]);
-                assert!(r.finish() == 0xffff, "C08.parse.icmpv6: a message that parses has a valid checksum");
+                let total = sum_v6(&s6, &d6, 58, n as u32, &buf[..n]);
+                assert!(total == 0xffff, "C08.parse.icmpv6: a message that parses has a valid checksum");
             }
         }
     }
